@@ -251,6 +251,8 @@ def h_dtypes(m):
                     m.require('non-finite fill promotes the cutout to float', np.asarray(c).dtype.kind == 'f')
             m.require('data unchanged', bool(np.all(np.asarray(keep) == np.asarray(data))))
             v = mk.get_values(data)
+            if isinstance(data, u.Quantity) and len(v):
+                m.require('Quantity data gives Quantity values in the same unit', isinstance(v, u.Quantity) and v.unit == u.Jy)
             m.require(f'get_values empty iff nothing selected @({X0},{Y0})', (len(v) == 0) == (not any(
                 0 <= Y0 + j < 3 and 0 <= X0 + i < 4 and wts[j, i] > 0 for j in range(2) for i in range(2))))
 
